@@ -57,13 +57,15 @@ func (c *Cache[K, D]) LoadOrStore(key K, e *Element[D]) (actual *Element[D], loa
 			// could make an entry that expired in the meantime look fresh.
 			if !oldValue.IsExpired(time.Now()) {
 				actual = oldValue
+				loaded = true
 				return oldValue, false
 			}
 		}
 		actual = e
 		return e, false
 	})
-	return actual, actual != e
+	// (not "actual != e": callers that share one element would all be told that they had stored it)
+	return actual, loaded
 }
 
 func (c *Cache[K, D]) Load(key K) (actual *Element[D]) {
